@@ -29,7 +29,11 @@ RULE = (
     "(all unnamed / all named / named + use_alter on child<parent edges / mixed naming) x declaration order (identity, reversed); "
     "random: 1-7 tables, 0-14 FKs (child,parent by index, 1 or 2 columns, named?, use_alter?, column-level or table-level), parallel edges, "
     "drawn declaration order, two-phase create/drop split (tables= subsets closed under references), SQLite pre-created / pre-dropped subsets with checkfirst, indexes. "
-    "Non-trivial: the FK graph has a cycle over >=2 tables or a dependency chain over >=3 tables, and the declaration order is not already a valid creation order; "
+    "history: the same random graphs plus a history of 2-8 calls (create_all twice; create_all(tables=subset closed under references) then create_all; Tables added to the MetaData after "
+    "create_all, then create_all again; drop_all(tables=subset closed under 'referenced by') then drop_all; free mixes) with checkfirst functional on the postgresql and mysql dialects "
+    "(has_table/has_index answered from the strict catalog); after every call the catalog must equal exactly the MetaData's definition of the existing tables (FK constraints as a multiset: "
+    "re-emitted ALTER .. ADD CONSTRAINT shows up as 'already exists' or as a duplicate). history non-trivial: a checkfirst create finds existing tables and the graph has FKs, or an existing table owns an ALTER-rendered FK. "
+    "Non-trivial (exh/random): the FK graph has a cycle over >=2 tables or a dependency chain over >=3 tables, and the declaration order is not already a valid creation order; "
     "distinct = canonical JSON of the case"
 )
 ASSUMPTIONS = [
@@ -144,12 +148,14 @@ def _closure_down(n, fks, mask):
 
 
 # --------------------------------------------------------------------------- build
-def _build(n, order, fks, idxmask):
+def _build(n, order, fks, idxmask, md=None, only=None):
     from sqlalchemy import Column, ForeignKey, ForeignKeyConstraint, Index, Integer, MetaData, Table, UniqueConstraint
 
-    md = MetaData()
+    md = MetaData() if md is None else md
     tables = {}
     for i in order:
+        if only is not None and i not in only:
+            continue
         cols = [Column("id", Integer, primary_key=True), Column("k", Integer)]
         extra = [UniqueConstraint("id", "k")]
         for j, f in enumerate(fks):
@@ -504,6 +510,215 @@ def _run_sqlite(n, order, fks, opts):
         eng.dispose()
 
 
+
+# --------------------------------------------------------------------------- histories of create/drop calls with a functional checkfirst
+_SIMS = {}
+
+
+def _sim_engine(dialect_name):
+    """MockConnection that keeps the caller's checkfirst flag, over a subclass of the real dialect whose has_table /
+    has_index answers come from the strict catalog (the documented Dialect.has_* interface); one per dialect and process"""
+    if dialect_name in _SIMS:
+        return _SIMS[dialect_name]
+    from sqlalchemy.engine.mock import MockConnection
+    from sqlalchemy.engine.url import make_url
+
+    base = make_url(_DIALECT_URLS[dialect_name]).get_dialect()
+    holder = {"cat": None}
+
+    class SimDialect(base):
+        supports_statement_cache = False
+
+        def has_table(self, connection, table_name, schema=None, **kw):
+            return table_name in holder["cat"].tables
+
+        def has_multi_table(self, connection, table_names, schema=None, **kw):
+            return [((schema, name), name in holder["cat"].tables) for name in table_names]
+
+        def has_index(self, connection, table_name, index_name, schema=None, **kw):
+            return holder["cat"].indexes.get(index_name) == table_name
+
+        def has_sequence(self, connection, sequence_name, schema=None, **kw):
+            return False
+
+    class SimConnection(MockConnection):
+        def _run_ddl_visitor(self, visitorcallable, element, **kwargs):
+            visitorcallable(dialect=self.dialect, connection=self, **kwargs).traverse_single(element)
+
+    dia = SimDialect()
+
+    def executor(sql, *a, **kw):
+        holder["cat"].execute(str(sql.compile(dialect=dia)))
+
+    holder["e"] = SimConnection(dia, executor)
+    _SIMS[dialect_name] = holder
+    return holder
+
+
+def _closure_up(fks, start, universe):
+    s = set(start)
+    changed = True
+    while changed:
+        changed = False
+        for f in fks:
+            if f["p"] in s and f["c"] not in s and f["c"] in universe:
+                s.add(f["c"])
+                changed = True
+    return s
+
+
+def _norm_history(case, n, fks):
+    """-> (late set, ops); late = tables added to the MetaData by the 'late' op (closed under 'is referenced by',
+    so no declared table ever refers to an undeclared one)"""
+    full = set(range(n))
+    late = _closure_up(fks, {i for i in range(n) if case.get("late", 0) >> i & 1}, full)
+    if len(late) == n:
+        late = set()
+    ops = []
+    for op in case.get("hist", [])[:8]:
+        ops.append(list(op))
+    if late and not any(o[0] == "late" for o in ops):
+        ops.insert(len(ops) // 2, ["late"])
+    return late, ops
+
+
+def _invariant(cat, dn, n, fks, exists, idxmask, where):
+    """the catalog must equal exactly the MetaData's definition of the tables that exist"""
+    names = sorted(f"t{i}" for i in exists)
+    if sorted(cat.tables) != names:
+        raise Violation("C14/history/tables", f"[{dn}] {where}: tables in catalog {sorted(cat.tables)} != expected {names}; log {cat.log[-8:]}", observed=sorted(cat.tables), expected=names)
+    exp_fk = _declared_fk_set(fks, exists)
+    got_fk = cat.fk_set()
+    if got_fk != exp_fk:
+        extra = [x for x in got_fk if got_fk.count(x) > exp_fk.count(x)]
+        sig = "C14/history/fk-constraint-duplicated" if extra else "C14/history/fk-constraint-missing"
+        raise Violation(sig, f"[{dn}] {where}: FK constraints in catalog differ from the MetaData ({'duplicated: ' + repr(extra[:2]) if extra else 'missing'}); log {cat.log[-8:]}",
+                        observed=got_fk, expected=exp_fk)
+    exp_ix = sorted(f"ix_t{i}" for i in exists if idxmask >> i & 1)
+    if sorted(cat.indexes) != exp_ix:
+        raise Violation("C14/history/indexes", f"[{dn}] {where}: indexes {sorted(cat.indexes)} != {exp_ix}", observed=sorted(cat.indexes), expected=exp_ix)
+
+
+def _alter_owned(n, fks, declared):
+    """tables (among the declared ones) owning a FK that create_all renders through ALTER: use_alter, or owner on a cycle"""
+    dep = [(f["p"], f["c"]) for f in fks if f["p"] != f["c"] and not f["ua"] and f["c"] in declared and f["p"] in declared]
+    cyc = _cyclic_nodes(n, dep)
+    return {f["c"] for f in fks if f["c"] in declared and (f["ua"] or (f["c"] in cyc and f["p"] != f["c"]))} | {f["c"] for f in fks if f["c"] in declared and f["c"] in cyc}
+
+
+def _run_history(dn, n, order, fks, opts, late, ops, ctx, classes):
+    from sqlalchemy.exc import CircularDependencyError, CompileError
+
+    sim = _sim_engine(dn)
+    cat = sim["cat"] = _Catalog(dn)
+    eng = sim["e"]
+    declared = set(range(n)) - late
+    md, tables = _build(n, order, fks, opts["idx"], only=declared)
+    exists = set()
+    for k, op in enumerate(ops):
+        kind = op[0]
+        where = f"op {k} {op}"
+        if kind == "late":
+            if late - declared:
+                _, more = _build(n, order, fks, opts["idx"], md=md, only=late)
+                tables.update(more)
+                declared |= late
+                classes.add("table-added-after-create")
+            continue
+        if kind in ("ca", "cs"):
+            target = set(declared) if kind == "ca" else (_closure_down(n, fks, op[1]) & declared)
+            if kind == "cs" and not target:
+                continue
+            cf = bool(op[-1]) or bool(target & exists)  # creating an existing table without checkfirst is a user error
+            if cf and target & exists:
+                classes.add("checkfirst-with-existing-tables")
+                if target <= exists:
+                    classes.add("checkfirst-all-exist")
+                if _alter_owned(n, fks, declared) & target & exists and target - exists:
+                    classes.add("alter-fk-owner-already-exists")
+                elif _alter_owned(n, fks, declared) & target & exists:
+                    classes.add("alter-fk-owner-already-exists(all-exist)")
+            kw = {} if kind == "ca" else {"tables": [tables[i] for i in order if i in target]}
+            md.create_all(eng, checkfirst=cf, **kw)
+            exists |= target
+            _invariant(cat, dn, n, fks, exists, opts["idx"], where)
+        else:
+            target = set(declared) if kind == "da" else (_closure_up(fks, {i for i in range(n) if op[1] >> i & 1}, declared) & declared)
+            if kind == "ds" and not target:
+                continue
+            cf = bool(op[-1]) or not (target <= exists)  # dropping a missing table without checkfirst is a user error
+            eff = target & exists if cf else target
+            if cf and not (target <= exists):
+                classes.add("drop-checkfirst-with-missing-tables")
+            if kind == "ds":
+                classes.add("drop-subset")
+            exp = _expected_drop_outcome(n, fks, eff)
+            if exp == "noname" and dn == "mysql" and not opts["pinned"]:
+                ctx.exclude("mysql: DROP of an unnamed use_alter FK (known finding: AssertionError instead of the documented CompileError)")
+                return
+            kw = {} if kind == "da" else {"tables": [tables[i] for i in order if i in target]}
+            before = len(cat.log)
+            try:
+                md.drop_all(eng, checkfirst=cf, **kw)
+                got = "ok"
+            except CircularDependencyError:
+                got = "circular"
+                if len(cat.log) != before:
+                    raise Violation("C14/drop_all/partial-drop-before-circular-error", f"[{dn}] {where}: statements emitted before CircularDependencyError: {cat.log[before:]}")
+            except CompileError as e:
+                if "it has no name" not in str(e):
+                    raise
+                got = "noname"
+            if got != exp:
+                raise Violation(f"C14/drop_all/outcome-{got}-expected-{exp}", f"[{dn}] {where}: drop_all outcome {got!r}, documented outcome {exp!r} (tables {sorted(eff)})", observed=got, expected=exp)
+            if got == "noname":
+                return  # constraints were partly dropped before the documented error: history ends
+            if got == "ok":
+                exists -= eff
+            _invariant(cat, dn, n, fks, exists, opts["idx"], where)
+
+
+def check_history(case, ctx):
+    n, order, fks, opts = _norm(case)
+    _exclude_known(n, fks, opts, ctx)
+    late, ops = _norm_history(case, n, fks)
+    classes = set()
+    results = {}
+    for dn in ("postgresql", "mysql"):
+        cl = set()
+        try:
+            _run_history(dn, n, order, fks, opts, late, ops, ctx, cl)
+        except Violation as v:
+            ctx.note(case, True, classes=cl | classes)
+            raise
+        classes |= cl
+    full_dep = [(f["p"], f["c"]) for f in fks if f["p"] != f["c"]]
+    if _cyclic_nodes(n, full_dep):
+        classes.add("cyclic")
+    if any(f["ua"] for f in fks):
+        classes.add("use_alter")
+    nontrivial = bool(classes & {"alter-fk-owner-already-exists", "alter-fk-owner-already-exists(all-exist)"}) or ("checkfirst-with-existing-tables" in classes and bool(full_dep))
+    ctx.note(case, nontrivial, classes=classes)
+
+
+def _exclude_known(n, fks, opts, ctx):
+    """known finding (parallel named + unnamed FKs of a cyclic table to one parent): name them all unless pinned; returns whether a pinned case carries the trigger"""
+    sort_dep = [(f["p"], f["c"]) for f in fks if f["p"] != f["c"] and not f["ua"]]
+    cyc_sort = _cyclic_nodes(n, sort_dep)
+    mixed = False
+    for c in sorted(cyc_sort):
+        for p in range(n):
+            allp = [f for f in fks if f["c"] == c and f["p"] == p and p != c]
+            grp = [f for f in allp if not f["ua"]]
+            if any(f["named"] for f in allp) and not all(f["named"] for f in grp):
+                if opts["pinned"]:
+                    mixed = True
+                    continue
+                ctx.exclude("cyclic table with named+unnamed parallel FKs to one parent (known finding: drop_all discards the dependency edge)")
+                for f in grp:
+                    f["named"] = True
+    return mixed
+
 # --------------------------------------------------------------------------- the check
 def check_graph(case, ctx):
     n, order, fks, opts = _norm(case)
@@ -641,8 +856,34 @@ def _graphs(draw):
     return {"n": n, "order": list(order), "fks": fks, "split": split, "pre": pre, "predrop": predrop, "idx": idx}
 
 
+@st.composite
+def _histories(draw):
+    g = draw(_graphs())
+    n = g["n"]
+    mask = st.integers(0, (1 << n) - 1)
+    tmpl = draw(st.sampled_from(["twice", "subset-then-all", "late", "drop-subset", "free", "free"]))
+    cf = lambda: int(draw(st.booleans()))  # noqa: E731
+    if tmpl == "twice":
+        hist = [["ca", cf()], ["ca", 1], ["da", cf()]]
+    elif tmpl == "subset-then-all":
+        hist = [["cs", draw(mask), cf()], ["ca", 1], ["cs", draw(mask), 1], ["da", cf()]]
+    elif tmpl == "late":
+        hist = [["ca", cf()], ["late"], ["ca", 1], ["da", cf()], ["ca", cf()]]
+    elif tmpl == "drop-subset":
+        hist = [["ca", cf()], ["ds", draw(mask), cf()], ["da", 1], ["ca", cf()], ["ca", 1]]
+    else:
+        hist = []
+        for _ in range(draw(st.integers(2, 7))):
+            k = draw(st.sampled_from(["ca", "ca", "cs", "cs", "late", "ds", "da"]))
+            hist.append([k] if k == "late" else ([k, cf()] if k in ("ca", "da") else [k, draw(mask), cf()]))
+    g["hist"] = hist
+    g["late"] = draw(mask) if (tmpl == "late" or draw(st.integers(0, 3)) == 0) else 0
+    return g
+
+
 def subs(tier):
     return [
         Enumerated("exh", check_graph, cases=_exh_cases),
         Generated("random", check_graph, strategy=_graphs(), quick=500, thorough=50000),
+        Generated("history", check_history, strategy=_histories(), quick=600, thorough=40000),
     ]
